@@ -389,6 +389,8 @@ def judgeC09 (ops : List OpRec) : List String :=
         let g := sortBy (· < ·) (got.map key)
         -- a call cut short on the wire has stated part of what was asked: whatever it did state must be right
         let cut := op.evs.any (fun e => match e with | .io _ _ => true | .connect _ ok => !ok | _ => false)
+          -- (a call that failed on one broker's reply - an undecodable or corrupt one - never asked the brokers behind it)
+          || op.result.startsWith "err"
         let s := if w == g || (cut && g.all (fun x => w.contains x)) then s else viol s "C09-fetch-body" op s!"fetch requests state {g}, asked (restricted to led partitions, by leader) {w}"
         reqs.foldl (fun s (_, r) => match r.body with
           | .fetch rep mw mb _ =>
@@ -1620,6 +1622,8 @@ structure J08 where
   /-- marks: (topic, partition) ↦ (highest consumed mark, changed since the last successful commit) -/
   marks : List ((Bytes × Int) × (Int × Bool)) := []
   spec : List (Bytes × Int) := []
+  /-- the offset storage set on the scenario's client (inherited by a consumer built from it unless the builder names one) -/
+  clientStorage : String := "none"
   out : List String := []
 
 def judgeC08 (ops : List OpRec) : List String :=
@@ -1629,10 +1633,14 @@ def judgeC08 (ops : List OpRec) : List String :=
     let s := { s with cluster := applySetup s.cluster op.setup }
     let c := s.cluster
     let s := match op.toks with
-    | "consumer_create" :: _ :: opts =>
+      | "client_new" :: _ => { s with clientStorage := "none" }
+      | ["c", "set", "storage", x] => { s with clientStorage := x }
+      | _ => s
+    let s := match op.toks with
+    | "consumer_create" :: from_ :: opts =>
       if op.result != "ok" then { s with marks := [] } else
       let group := ((lastOpt opts "group").bind fromHex).getD []
-      let storage := (lastOpt opts "storage").getD "none"
+      let storage := (lastOpt opts "storage").getD (if from_ == "client" then s.clientStorage else "none")
       -- a new consumer of the group starts from what the coordinator has stored: marks = stored - 1, clean
       let marks : List ((Bytes × Int) × (Int × Bool)) := c.groups.filterMap fun (e : (Bytes × Bytes × Int) × Int) =>
         if e.1.1 == storeKey storage group && e.2 != -1 && !group.isEmpty && storage != "none"
@@ -1722,8 +1730,7 @@ def judgeC17 (ops : List OpRec) : List String :=
     | "consumer_create" :: _ :: opts =>
       let base := ((lastOpt opts "maxbytes").bind (·.toInt?)).getD 32768
       let lim := ((lastOpt opts "retrylimit").bind (·.toInt?)).getD 0
-      let topics : List Bytes := opts.filterMap fun o => let (k, x) := kv o; if k == "topic" then fromHex x else none
-      let n := (topics.map fun (t : Bytes) => ((s.cluster.topic? t).map (fun (ts : TopicState) => ts.parts.length)).getD 0).foldl (· + ·) 0
+      let n := ((assignedPairs s.cluster opts).getD []).length
       { s with base := base, lim := lim, nparts := n, expect := [], behind := [], queues := [[]], stuckPolls := 0 }
     | ["seek", t, p, _] =>
       match fromHex t, p.toInt? with
